@@ -186,9 +186,12 @@ func extractTarDirectory(dirPath, dirName string, r io.Reader, buf []byte, prese
 			// If a hard link is found in the tarball, it will be extracted.
 			// If the target link already exists, os.Link will throw an error.
 			// This is a known limitation and will not be addressed.
-			var target string
-			if target, err = ensureLinkPath(dirPath, dirName, filePath, header.Linkname); err == nil {
-				err = os.Link(target, filePath)
+			// the link name of a hard link is the name of an earlier entry of
+			// the archive: resolve it like an entry name, inside the base
+			// directory, not against the process's working directory
+			var targetRel string
+			if targetRel, err = resolveRelToBase(dirPath, dirName, header.Linkname); err == nil {
+				err = os.Link(filepath.Join(dirPath, targetRel), filePath)
 			}
 		case tar.TypeSymlink:
 			var target string
